@@ -34,7 +34,7 @@ RULE = (
 )
 ASSUMPTIONS = [
     "integer/integer division (Fortran integer arithmetic) is excluded by construction: KROME rates are real-valued",
-    "multi-argument intrinsics cannot be written in a KROME line (the comma separates columns) and are not generated",
+    "multi-argument intrinsics: naunet splits a KROME line at every comma, so max(a,b) cannot reach the translator whole; the near-miss 'comma-in-rate' checks that what is left is refused rather than translated",
     "the alias naunet documents: name + I*(charge+1) for q>=0, M*|q| for q<0; electron 'E' -> 'EM'",
 ]
 VARS = ["Tgas", "T32", "invT", "Te", "invTe", "lnTe", "sqrTgas", "vt_a", "vtb2", "x_1", "user_crate"]
@@ -105,7 +105,7 @@ def _case(draw, depth):
         tree = ["neg", ["bin", "**", ["num", draw(st.sampled_from(NUMS))], tree]]
     case = {"kind": kind, "tree": tree, "sp": draw(st.sampled_from(["", "", " "])), "seedvals": draw(st.integers(0, 10 ** 6))}
     if kind == "near-miss":
-        case["miss"] = draw(st.sampled_from(["neg-var", "neg-var-pow", "neg-var-pow", "d-plus", "upper-D", "unbalanced", "risky-ident"]))
+        case["miss"] = draw(st.sampled_from(["neg-var", "neg-var-pow", "neg-var-pow", "d-plus", "upper-D", "unbalanced", "risky-ident", "comma-in-rate"]))
     return case
 
 
@@ -368,6 +368,17 @@ def check_case(case, tier):
             text2, tree2 = "1d+3*" + FT.render(tree, 2, "R", case["sp"]), ["bin", "*", ["num", "1e3"], tree]
         elif miss == "upper-D":
             text2, tree2 = "1.D-3*" + FT.render(tree, 2, "R", case["sp"]), ["bin", "*", ["num", "1e-3"], tree]
+        elif miss == "comma-in-rate":
+            # a two-argument intrinsic: KROME reads everything after the last column name as the rate, naunet splits the line at every
+            # comma - whatever is left of the expression must be refused, never translated into something
+            text2 = f"1.0d-9*max({text},1d2)"
+            labels.append("near-miss-comma-in-rate")
+            try:
+                ctext = translate(text2)
+            except Exception as e:
+                return CaseResult([], True, labels + ["rejected"], sample={"fortran": text2, "outcome": "rejected"})
+            failures.append(("krome/rate-cut-at-a-comma-and-accepted", f"{text2!r} was cut at the comma and translated to {ctext!r}"))
+            return CaseResult(failures, True, labels + ["translated"], sample={"fortran": text2, "c": ctext})
         elif miss == "unbalanced":
             text2, tree2 = "(" + text, tree
         else:
